@@ -318,6 +318,134 @@ def run(ctx):
                   "%s recurses over input bytes without a depth/budget bound: nesting depth is attacker-controlled (stack overflow)" % name, site=prog.fns[name].loc())
     rep.check(n_rec >= 2, "C13.R3", "recursion:sites", "%d input-consuming recursive components examined" % n_rec, "only %d input-consuming recursive components found" % n_rec, site="workspace")
 
+    # ---- R6 unchecked arithmetic on a declared length
+    # A 64-bit length/count read from the input that is ADDED (or multiplied) with plain `+`/`*` before any upper bound
+    # was established overflows for a hostile value: a debug build panics in the add, a release build wraps and panics in
+    # the following slice.  The repository's idiom is "bound first (need(), a remaining-length compare, checked_add), then
+    # add".  Evaluated on the helper-inlined view so that a cursor helper that adds its `n` parameter is judged with the
+    # caller's argument.  128-bit arithmetic (cannot overflow from a 64-bit source) and the `&mut` cursor operand itself
+    # (flow-insensitively merged) are not judged.
+    from ..inline import inline_view
+    rep.rule("C13.R6", "a 64-bit declared length is never added/multiplied with plain arithmetic before an upper-bound gate")
+    DECL = re.compile(r"::(read_len|read_u64|read_uint|read_count|read_usize|read_varint|read_u128)$|::from_[lb]e_bytes$")
+    n_arith = 0
+    seen_keys = {}
+    for f0 in fns:
+        if not f0.crate.startswith(("warp_core", "echo_", "warp_wasm")) or f0.is_closure():
+            continue
+        raw = f0.rec.get("_raw")
+        if raw is not None and "WithOverflow" not in raw:
+            continue
+        f, _p = inline_view(prog, f0)
+        for bi, b in enumerate(f.blocks):
+            if b["cl"]:
+                continue
+            for st_ in b["st"]:
+                if st_[0] != "a" or st_[2]["r"] != "bin" or st_[2]["op"] not in ("AddWithOverflow", "MulWithOverflow"):
+                    continue
+                for o in (st_[2]["a"], st_[2]["b"]):
+                    pl = op_place(o)
+                    if pl is None or (pl[1] and pl[0] <= f.argc) or f.locals[pl[0]] in ("i128", "u128"):
+                        continue
+                    wide = set()
+                    for x in near_origins(f, o):
+                        if x[0] == "call" and DECL.search(x[1]):
+                            ty = f.locals[f.blocks[x[2]]["t"]["dest"][0]]
+                            if re.search(r"\b(u64|usize|i64)\b", ty):
+                                wide.add(x)
+                    if not wide:
+                        continue
+                    n_arith += 1
+                    gate, how = upper_bound_gate(f, o, bi)
+                    helper = [x[1] for x in wide if x[1] in prog.fns and self_bounding(prog, x[1])]
+                    clamp = any(x[0] == "call" and re.search(r"::min$", x[1]) for x in near_origins(f, o))
+                    base_key = "unchecked-arith:%s@%s" % (f0.id.replace("warp_core::", ""), sorted(x[1].rsplit("::", 1)[-1] for x in wide)[0])
+                    okk = gate or bool(helper) or clamp
+                    if base_key in seen_keys and (seen_keys[base_key] or not okk) and okk == seen_keys[base_key]:
+                        continue
+                    seen_keys[base_key] = okk
+                    rep.check(okk, "C13.R6", base_key, how or ("gated by reader" if helper else "clamped"),
+                              "a length read from the input (%s) is %s with plain arithmetic at line %s before any upper-bound gate: a hostile length overflows (debug: panic in the "
+                              "add; release: wrap, then an out-of-range slice)" % (sorted(x[1].rsplit("::", 1)[-1] for x in wide), "added" if "Add" in st_[2]["op"] else "multiplied", st_[3]),
+                              site=f0.loc(st_[3]))
+    rep.check(n_arith >= 5, "C13.R6", "unchecked-arith:sites", "%d additions/multiplications of declared lengths examined" % n_arith, "only %d sites examined" % n_arith, site="workspace")
+
+    # ---- R7 constant index into a collection built from the input
+    rep.rule("C13.R7", "`v[k]` with a constant k on a Vec filled from the input is dominated by a non-emptiness gate on the Vec or on the declared count it was filled from")
+    n_idx = 0
+    for f in fns:
+        if not f.crate.startswith(("warp_core", "echo_", "warp_wasm")):
+            continue
+        for bi, t in f.calls():
+            if f.blocks[bi]["cl"]:
+                continue
+            c = f.callee_of(t) or ""
+            if not re.search(r"Vec<T, A> as std::ops::Index(Mut)?<I>>::index(_mut)?$", c) or len(t["args"]) != 2 or "k" not in t["args"][1]:
+                continue
+            n_idx += 1
+            # the Vec local behind the receiver reference
+            vec_locals = set()
+            stack = [t["args"][0]]
+            seen_l = set()
+            while stack:
+                o = stack.pop()
+                pl = op_place(o)
+                if pl is None or pl[0] in seen_l:
+                    continue
+                seen_l.add(pl[0])
+                if f.locals[pl[0]].startswith("std::vec::Vec<"):
+                    vec_locals.add(pl[0])
+                for d in f.defs().get(pl[0], ()):
+                    if d[0] == "assign":
+                        rv = d[4]
+                        if "p" in rv:
+                            stack.append({"c": rv["p"]})
+                        for o2 in operands_of_rvalue(rv):
+                            stack.append(o2)
+            size_atoms = set()
+            for vl in vec_locals:
+                for d in f.defs().get(vl, ()):
+                    if d[0] == "call" and ALLOC.search(f.callee_of(d[2]) or ""):
+                        size_atoms |= reader_atoms(f, d[2]["args"][-1])
+            gated = False
+            why = ""
+            for (bb, kind, a, b, res, line) in comparisons(f):
+                k = kind.lower() if isinstance(kind, str) else kind
+                for mine, other, mine_left in ((a, b, True), (b, a, False)):
+                    if const_int(other) != 0:
+                        continue
+                    no = near_origins(f, mine)
+                    about_vec = bool(reader_atoms(f, mine) & size_atoms) or any(x[0] == "call" and re.search(r"::len$", x[1]) for x in no)
+                    if not about_vec:
+                        continue
+                    # which outcome means "mine == 0"?
+                    if k == "eq":
+                        zero_true = True
+                    elif k == "ne":
+                        zero_true = False
+                    elif (k == "gt" and mine_left) or (k == "lt" and not mine_left):
+                        zero_true = False
+                    elif (k == "le" and mine_left) or (k == "ge" and not mine_left):
+                        zero_true = True
+                    else:
+                        continue
+                    for sw in switch_edges_on_local(f, res):
+                        zero_t = sw["true"] if zero_true else sw["false"]
+                        nz = sw["false"] if zero_true else sw["true"]
+                        reach = f.reachable([zero_t], avoid_edges=[(sw["sw"], nz)], avoid_blocks=[sw["sw"]])
+                        if bi not in reach and f.path([0], [bi], avoid_blocks=[sw["sw"]]) is None:
+                            gated, why = True, "non-emptiness gate@%s" % line
+            for b2, t2 in f.calls():
+                if (f.callee_of(t2) or "").endswith("::is_empty") and not f.blocks[b2]["cl"]:
+                    for sw in switch_edges_on_local(f, t2["dest"][0]):
+                        reach = f.reachable([sw["true"]], avoid_edges=[(sw["sw"], sw["false"])], avoid_blocks=[sw["sw"]])
+                        if bi not in reach and f.path([0], [bi], avoid_blocks=[sw["sw"]]) is None:
+                            gated, why = True, "is_empty gate@%s" % t2.get("line")
+            rep.check(gated, "C13.R7", "const-index:%s" % f.id.replace("warp_core::", ""), why,
+                      "%s indexes a Vec filled from the input with constant %s (line %s) and no dominating non-emptiness gate on the Vec or on its declared count: a zero-count record panics "
+                      "(index out of bounds) instead of returning a decode error" % (f.name, t["args"][1].get("v", "?"), t.get("line")), site=f.loc(t.get("line")))
+    rep.ok("C13.R7", "const-index:sites", "%d constant-index Vec accesses examined (zero is fine: `.first()`/`.get(k)` are total)" % n_idx, site="workspace")
+
     # ---- R4
     exports = [f for f in E if f.crate == "warp_wasm"]
     rep.check(len(exports) >= 8, "C13.R4", "exports:count", "%d byte-taking wasm exports" % len(exports), "only %d byte-taking wasm exports found" % len(exports), site="warp_wasm")
